@@ -27,7 +27,7 @@ def walk_sends(sc, obs):
 
 
 # ------------------------------------------------------------------ C01
-K_C01 = dict(any_shared_event=0.5, exc_classes=0.2, wrapped_coros=0.5, falsy_model=0.08, stop_iter=0.25, any_group=0.2, callable_refs=0.15, state_decor=0.2, decor=0.5, multi_cand=0.75, guards=0.7, guard_max=3, validators=0.3, raises=0.08, sends=0.04,
+K_C01 = dict(bound_refs=0.5, attr_unknown=0.5, user_tna=0.3, any_shared_event=0.5, exc_classes=0.2, wrapped_coros=0.5, falsy_model=0.08, stop_iter=0.25, any_group=0.2, callable_refs=0.15, state_decor=0.2, decor=0.5, multi_cand=0.75, guards=0.7, guard_max=3, validators=0.3, raises=0.08, sends=0.04,
              unknown_ev=0.15, allow=0.4, rtc_false=0.2, p_async=0.3, cbs=0.15, extra_trans=(1, 8),
              ops=(3, 16), p_write=0.05)
 
@@ -60,7 +60,7 @@ def nontrivial_C01(sc, obs):
 
 
 # ------------------------------------------------------------------ C02
-K_C02 = dict(eqgroups=0.3, alias_inherit=0.4, inst_hooks=0.15, wrapped_coros=0.4, falsy_model=0.08, any_group=0.15, callable_refs=0.2, state_decor=0.3, decor=0.6, yields=0.3, cbs=0.6, cb_max=3, conv=0.35, listeners=(0, 3), multi_prov=0.3, self_loop=0.3, internal=0.5,
+K_C02 = dict(extend_inherit=0.2, bound_refs=0.5, eqgroups=0.3, alias_inherit=0.4, inst_hooks=0.15, wrapped_coros=0.4, falsy_model=0.08, any_group=0.15, callable_refs=0.2, state_decor=0.3, decor=0.6, yields=0.3, cbs=0.6, cb_max=3, conv=0.35, listeners=(0, 3), multi_prov=0.3, self_loop=0.3, internal=0.5,
              multi_event=0.5, p_async=0.3, sends=0.03, guards=0.4, validators=0.3, share_groups=0.3,
              ops=(2, 10))
 
@@ -73,7 +73,7 @@ def extra_C02(rng, tier):
     n = 160 if tier == "quick" else 2500
     out = []
     while len(out) < n:
-        sc = enggen.gen_scenario(rng, dict(K_C02, p_async=0.0, multi_event=0.3, styles=("str", "list"), evmax=4))
+        sc = enggen.gen_scenario(rng, dict(K_C02, p_async=0.0, multi_event=0.3, styles=("str", "list"), evmax=4, extend_inherit=0.0))
         if sc["ne"] < 2:
             continue
         ea, eb = sorted(rng.sample(range(sc["ne"]), 2))
@@ -101,6 +101,40 @@ def extra_C02(rng, tier):
         out.append(sc)
     return out, ("two-event transitions fired once, then a listener with event-named callbacks attached with "
                  "add_listener, then fired through the other event and the first again")
+
+
+def post_C02(sc, rng):
+    """sometimes one event is called `transition`: the generic hooks before_transition / on_transition /
+    after_transition then have the names of that event's own hooks; they stay generic (they run for every event)"""
+    if sc["ne"] > 7 or rng.random() >= 0.15 or sc.get("any_group") or sc.get("alias_inherit"):
+        return sc
+    evs = sorted({e for t in sc["trans"] for e in t["ev"]})
+    shared = sorted({e for t in sc["trans"] if len(t["ev"]) > 1 for e in t["ev"]})
+    e0 = rng.choice(shared or evs)
+
+    def rn(e):
+        return 7 if e == e0 else e
+    for t in sc["trans"]:
+        t["ev"] = [rn(e) for e in t["ev"]]
+        if sc.get("evstyle") in ("assign", "obj"):
+            t["ev"] = sorted(t["ev"])
+    if sc.get("evstyle") == "obj":
+        sc["evstyle"] = "str"
+    sc["ops"] = [([op[0], rn(op[1])] + op[2:]) if op[0] == "send" else op for op in sc["ops"]]
+    # (after_transition is left out: for this event the library registers the event-named reading of that name
+    # first, for before_ / on_ the generic one - a clash the user created, either reading fits the property)
+    drop = {(4, e0), (5, e0), (6, e0), (3, 0)}
+    sc["provs"] = [[nm for nm in prov if tuple(nm) not in drop] for prov in sc["provs"]]
+    sc["tbl"] = [row for row in sc["tbl"] if (row[1], row[2]) not in drop]
+    sc["async"] = [x for x in sc.get("async", []) if (x[1], x[2]) not in drop]
+    sc["wrapped_coros"] = [x for x in sc.get("wrapped_coros", []) if (x[1], x[2]) not in drop]
+    sc["inst_hooks"] = [x for x in sc.get("inst_hooks", []) if tuple(x) not in drop]
+    for row in sc["tbl"]:
+        for scr in row[3]:
+            scr["a"] = [([a_[0], rn(a_[1])] + a_[2:]) if a_[0] == "send" else a_ for a_ in scr["a"]]
+    if sc.get("decor") and sc["decor"].get("event") and sc["decor"]["event"][0] == e0:
+        sc["decor"]["event"] = None
+    return sc
 
 
 def nontrivial_C02(sc, obs):
@@ -217,7 +251,7 @@ def nontrivial_C11(sc, obs):
 
 
 # ------------------------------------------------------------------ C14
-K_C14 = dict(eqgroups=0.5, inst_hooks=0.1, odd_values=0.15, p_clone=0.06, wrapped_coros=0.4, any_group=0.2, callable_refs=0.2, state_decor=0.2, decor=0.6, cbs=0.8, cb_max=3, conv=0.35, ret_none=0.25, self_loop=0.3, internal=0.5, multi_event=0.5,
+K_C14 = dict(extend_inherit=0.3, bound_refs=0.5, eqgroups=0.5, inst_hooks=0.1, odd_values=0.15, p_clone=0.06, wrapped_coros=0.4, any_group=0.2, callable_refs=0.2, state_decor=0.2, decor=0.6, cbs=0.8, cb_max=3, conv=0.35, ret_none=0.25, self_loop=0.3, internal=0.5, multi_event=0.5,
              p_async=0.3, sends=0.05, guards=0.3, listeners=(0, 2), multi_prov=0.3, allow=0.4, share_groups=0.3)
 
 
@@ -236,14 +270,20 @@ def nontrivial_C14(sc, obs):
 
 SPECS = {
     "C01": dict(knobs=K_C01, nontrivial=nontrivial_C01, n=(2200, 40000), post=post_C01),
-    "C02": dict(knobs=K_C02, nontrivial=nontrivial_C02, n=(1800, 30000), late=0.3, overlap=True, extra=extra_C02,
+    "C02": dict(knobs=K_C02, nontrivial=nontrivial_C02, n=(1800, 30000), late=0.3, overlap=True, extra=extra_C02, post=post_C02,
                 probes=[{"probe": "same_class_listener", "with_listener": True},
                         {"probe": "same_class_listener", "with_listener": False}]),
     "C03": dict(knobs=K_C03, nontrivial=nontrivial_C03, n=(1800, 20000), extra=extra_C03,
                 probes=[{"probe": "add_listener_in_callback", "attach": True},
                         {"probe": "add_listener_in_callback", "attach": False}]),
-    "C04": dict(knobs=K_C04, nontrivial=nontrivial_C04, n=(260, 5000), faults=True),
-    "C11": dict(knobs=K_C11, nontrivial=nontrivial_C11, n=(2000, 30000), probes=[{"probe": "threads_overlap"}]),
+    "C04": dict(knobs=K_C04, nontrivial=nontrivial_C04, n=(260, 5000), faults=True,
+                probes=[{"probe": "expr_guard_raises", "exc": e_, "kind": k_, "text": t_, "rtc": r_}
+                        for e_ in ("type", "value", "runtime", "attr", "key")
+                        for k_, t_, r_ in (("cond", "remaining > 0", True), ("unless", "remaining == 0", True),
+                                           ("cond", "limit >= remaining", False), ("cond", "not remaining", True),
+                                           ("cond", "limit and remaining", True), ("unless", "remaining != limit", False))]),
+    "C11": dict(knobs=K_C11, nontrivial=nontrivial_C11, n=(2000, 30000), probes=[{"probe": "threads_overlap"}, {"probe": "mixin_cooperative_init", "bind": True},
+                        {"probe": "mixin_cooperative_init", "bind": False}]),
     "C14": dict(knobs=K_C14, nontrivial=nontrivial_C14, n=(2000, 30000),
                 probes=[{"probe": "event_name_callback", "rtc": True}, {"probe": "event_name_callback", "rtc": False}]),
 }
@@ -453,7 +493,112 @@ def probe_add_listener_in_callback(sc):
     return {"probe": sc["probe"], "bad": bad}
 
 
-PROBES = {"add_listener_in_callback": probe_add_listener_in_callback, "same_class_listener": probe_same_class_listener, "event_name_callback": probe_event_name_callback,
+def probe_expr_guard_raises(sc):
+    """C04: a guard written as an expression whose operand raises: the exception reaches the caller whatever its
+    class, the state is the source, the fallback transition of the same event is not tried, and the next event
+    is processed normally"""
+    import warnings
+    from statemachine import State, StateMachine
+    excs = {"type": TypeError, "value": ValueError, "runtime": RuntimeError, "attr": AttributeError, "key": KeyError}
+    exc = excs[sc["exc"]]
+    calls = []
+
+    class M(StateMachine):
+        a = State(initial=True)
+        b = State()
+        c = State()
+        go = a.to(b, **{sc["kind"]: sc["text"]}) | a.to(c)
+        back = b.to(a) | c.to(a) | a.to.itself()
+
+        def remaining(self):
+            calls.append("remaining")
+            raise exc("boom")
+
+        def limit(self):
+            return 3
+
+        def on_enter_c(self):
+            calls.append("fallback taken")
+    bad = []
+    with warnings.catch_warnings():
+        warnings.simplefilter("ignore")
+        sm = M(rtc=sc["rtc"])
+        try:
+            sm.send("go")
+            bad.append("send('go') returned although the guard raised " + exc.__name__)
+        except exc:
+            pass
+        except Exception as e:  # noqa: BLE001
+            bad.append("send('go') raised " + repr(e))
+        if sm.current_state.id != "a":
+            bad.append("state " + sm.current_state.id)
+        if "fallback taken" in calls:
+            bad.append("the next candidate was tried after the failure")
+        try:
+            sm.send("back")
+        except Exception as e:  # noqa: BLE001
+            bad.append("next event: " + repr(e))
+    return {"probe": sc["probe"], "bad": bad}
+
+
+def probe_mixin_cooperative_init(sc):
+    """C11: a MachineMixin model whose persisted state is stored by ANOTHER base class (listed after the mixin,
+    reached through the cooperative super().__init__ chain): the machine is created over a model that already
+    holds its state - no callback runs, the state is kept; without a stored state the initial state is entered
+    exactly once"""
+    import warnings
+    import statemachine.registry as _reg
+    from statemachine import State, StateMachine
+    from statemachine.mixins import MachineMixin
+    _reg._initialized = True        # no Django project in this process: skip its module autodiscovery
+    calls = []
+    with warnings.catch_warnings():
+        warnings.simplefilter("ignore")
+
+        class OrderFlow(StateMachine):
+            new = State(initial=True)
+            paid = State()
+            shipped = State(final=True)
+            pay = new.to(paid)
+            ship = paid.to(shipped)
+
+            def on_enter_new(self):
+                calls.append("machine:enter_new")
+
+            def on_enter_paid(self):
+                calls.append("machine:enter_paid")
+        OrderFlow.__module__ = "scn_probe_c11"
+        _reg.register(OrderFlow)
+
+        class Record:
+            def __init__(self, state=None, **kw):
+                super().__init__(**kw)
+                self.state = state
+
+        class Order(MachineMixin, Record):
+            state_machine_name = "scn_probe_c11.OrderFlow"
+            bind_events_as_methods = sc["bind"]
+
+            def on_enter_new(self):
+                calls.append("model:enter_new")
+        bad = []
+        o = Order(state="paid")
+        if calls:
+            bad.append(f"callbacks ran although the model already holds a state: {calls}")
+        if o.state != "paid" or o.statemachine.current_state.id != "paid":
+            bad.append(f"stored state not kept: {o.state!r}")
+        del calls[:]
+        o.statemachine.send("ship")
+        if o.state != "shipped":
+            bad.append("the resumed machine did not go on from the stored state")
+        del calls[:]
+        fresh = Order()
+        if sorted(calls) != ["machine:enter_new", "model:enter_new"] or fresh.state != "new":
+            bad.append(f"fresh model: {calls}, state {fresh.state!r}")
+    return {"probe": sc["probe"], "bad": bad}
+
+
+PROBES = {"mixin_cooperative_init": probe_mixin_cooperative_init, "expr_guard_raises": probe_expr_guard_raises, "add_listener_in_callback": probe_add_listener_in_callback, "same_class_listener": probe_same_class_listener, "event_name_callback": probe_event_name_callback,
           "threads_overlap": probe_threads_overlap}
 
 
